@@ -28,6 +28,11 @@ def gen_nopanic(tier, rng):
         both(''.join(rng.choice(SCALARS) for _ in range(rng.randint(0, L))))
     for L in ([10 ** 3, 10 ** 4] if tier == 'quick' else [10 ** 3, 10 ** 4, 10 ** 5, 10 ** 6]):
         for unit in [' ', '||', '1 - 1x ', 'a', '1.2.3||', '>=1.2.3 ', '9', '~>1.2.x ', '\U0001F600', '1.', '^1.2.3-a.b+c || ', '\n']:
+            # the *model* recomputes its fuel (a unary `length`) at every alternative, so on a million bytes of `||` it is quadratic although the
+            # crate is not: the three many-alternative shapes stop at 10^5 here (the crate alone is timed on them at 10^6 below)
+            if L > 10 ** 5 and '||' in unit: continue
+            # ... and it converts a digit run to a binary number digit by digit (quadratic in the run's length; the crate's `str::parse` is not)
+            if L > 10 ** 4 and unit == '9': continue
             both(unit * (L // len(unit)))
     # near-limit numbers in ranges: every + 1 of the desugaring tables at MAX_SAFE_INTEGER
     M = str(MAX)
@@ -88,7 +93,10 @@ def timing(tier):
     table = {}; worst = 0
     for (p_, k) in probes:
         row = [best[(p_, k, n)] for n in sizes]
-        ratios = [row[i + 1] / max(row[i], 2000) for i in range(len(row) - 1)]
+        # a step counts only when the larger run takes at least 20 ms: below that the numbers are cache and page-fault effects (a
+        # 1 MB input rejected by the length check in 0.4 ms is not "184 times slower" than the 100 KB one); a genuinely quadratic parser
+        # needs seconds to minutes at these sizes, so the floor hides nothing
+        ratios = [(row[i + 1] / max(row[i], 2000)) if row[i + 1] >= 20_000_000 else 1.0 for i in range(len(row) - 1)]
         table['%s/%s' % (p_, k)] = {'ns': row, 'ratio_per_decade': [round(r, 1) for r in ratios]}
         worst = max([worst] + ratios)
     return {'sizes': sizes, 'probes': table, 'worst_ratio_per_decade': round(worst, 1)}, None
